@@ -31,10 +31,12 @@
 #include "configuration.h"
 #include "message.h"
 
+#include <fcntl.h>
 #include <limits.h>
 #include <stdio.h>
 #include <stdlib.h>
 #include <string.h>
+#include <unistd.h>
 
 
 
@@ -55,7 +57,6 @@ int snoopy_output_fileoutput (char const * const logMessage, char const * const 
 {
     char   filePathBuf[PATH_MAX] = {'\0'};
     char * filePath = filePathBuf;
-    FILE  *fp;
     int    charCount;
 
     // Check if output file is properly configured
@@ -66,14 +67,21 @@ int snoopy_output_fileoutput (char const * const logMessage, char const * const 
     // Parse the output file specification (i.e. for %{datetime} or similar tags)
     snoopy_message_generateFromFormat(filePath, PATH_MAX, PATH_MAX, arg);
 
-    // Try to open file in append mode
-    fp = fopen(filePath, "a");
-    if (NULL == fp) {
+    // Open in append mode and hand the whole record over in a single write():
+    // appends of concurrent writers can then never interleave inside a record
+    size_t msgLen = strlen(logMessage);
+    char *record = malloc(msgLen + 2);
+    int   fd;
+    memcpy(record, logMessage, msgLen);
+    record[msgLen]   = '\n';
+    record[msgLen+1] = '\0';
+    fd = open(filePath, O_WRONLY | O_APPEND | O_CREAT | O_CLOEXEC, 0666);
+    if (-1 == fd) {
+        free(record);
         return SNOOPY_OUTPUT_FAILURE;
     }
-
-    // Try to print to file
-    charCount = fprintf(fp, "%s\n", logMessage);
-    fclose(fp);
+    charCount = (int) write(fd, record, msgLen + 1);
+    close(fd);
+    free(record);
     return charCount;
 }
